@@ -1396,16 +1396,15 @@ def f_transaction_manager(case):
         store = BTree("txbtree", order=4, page_read_latency=ticks(1), page_write_latency=ticks(1))
     iso = [IsolationLevel.READ_COMMITTED, IsolationLevel.SNAPSHOT_ISOLATION, IsolationLevel.SERIALIZABLE][k[4] % 3]
     tm = TransactionManager("tm", store=store, isolation=iso, deadlock_detection=bool(k[5] % 2))
-    for i, key in enumerate(KEYS[:4]):
+    for i, key in enumerate(KEYS[:8]):
         store.put_sync(key, i)
     rnd = rng_of(case, 5)
 
     def txn_worker(self, e):
         for _ in range(4):
             tx = yield from tm.begin()
-            for _ in range(1 + rnd.randrange(3)):
-                key = rnd.choice(KEYS[:4])
-                if rnd.randrange(2):
+            for key in rnd.sample(KEYS[:8], 3 + rnd.randrange(3)):      # >= 3 distinct string keys per transaction
+                if rnd.randrange(3) == 0:
                     v = yield from tx.read(key)
                     self.log.append(("r", key, v))
                 else:
@@ -1462,7 +1461,7 @@ def f_cached_store(case):
     cs = CachedStore("cache", kv, cache_capacity=2 + k[2] % 4, eviction_policy=mk_eviction(k[3], case["seed"], k[4], holder),
                      cache_read_latency=ticks(1), write_through=bool(k[5] % 2))
     holder["e"] = cs
-    warmer = CacheWarmer("warmer", cs, keys_to_warm=KEYS[:3 + k[6] % 4], warmup_rate=512.0 / (1 + k[7] % 3), warmup_latency=ticks(1))
+    warmer = CacheWarmer("warmer", cs, keys_to_warm=KEYS[:4 + k[6] % 4], warmup_rate=512.0 / (1 + k[7] % 3), warmup_latency=ticks(1))
     workers, evs = kv_workers(cs, case, 3, 30, 7, ops=("put", "get", "get", "get", "delete"))
 
     def flusher(self, e):
@@ -2353,3 +2352,41 @@ def _evict_family(idx, name):
 
 for _i, _n in enumerate(EVICTION_NAMES):
     family("evict_" + _n.replace("-", "_"), "strkeys")(_evict_family(_i, _n))
+
+
+@family("transactions_lsm", "strkeys")
+def f_transactions_lsm(case):
+    """TransactionManager over an LSMTree with a tiny memtable: every commit writes 3-6 distinct string keys, so the
+    memtable fills up in the middle of a commit and the flush boundaries (hence SSTable contents, read paths, bloom
+    filter hits and level statistics) depend on the order in which the commit applies its keys."""
+    from happysimulator.components.storage import lsm_tree as lt
+    from happysimulator.components.storage.transaction_manager import IsolationLevel, TransactionManager
+    k = K(case)
+    strat = [lt.SizeTieredCompaction(min_sstables=2 + k[1] % 3), lt.LeveledCompaction(level_0_max=2 + k[1] % 3, size_ratio=2, base_size_keys=2),
+             lt.FIFOCompaction(max_total_sstables=6 + k[1] % 5)][k[0] % 3]
+    lsm = lt.LSMTree("txlsm", memtable_size=2 + k[2] % 2, compaction_strategy=strat, sstable_read_latency=ticks(1),
+                     sstable_write_latency=ticks(1 + k[3] % 3), max_levels=3 + k[4] % 2)
+    iso = [IsolationLevel.READ_COMMITTED, IsolationLevel.SNAPSHOT_ISOLATION, IsolationLevel.SERIALIZABLE][k[5] % 3]
+    tm = TransactionManager("tm", store=lsm, isolation=iso)
+    keys = [f"acct:{name}" for name in ("alice", "bob", "carol", "dave", "erin", "frank", "grace", "heidi", "ivan", "judy")]
+    rnd = rng_of(case, 81)
+    nclients = 2 + k[6] % 3
+
+    def client(self, e):
+        me = e.context["w"]
+        for t in range(2 + (k[7] + me) % 2):
+            tx = yield from tm.begin()
+            for key in rnd.sample(keys, 3 + rnd.randrange(4)):
+                yield from tx.write(key, f"c{me}t{t}")
+            ok = yield from tx.commit()
+            self.log.append(("commit", bool(ok)))
+            yield ticks(1 + rnd.randrange(3))
+        for key in keys:                                   # read everything back through the LSM read path
+            v = yield from lsm.get(key)
+            self.log.append((key, v, self.now.nanoseconds // TICK))
+        rows = yield from lsm.scan(keys[0], keys[-1])
+        self.log.append(("scan", len(list(rows or []))))
+    cs = [Proc(f"txclient{i}", client) for i in range(nclients)]
+    sim = mksim([lsm, tm] + cs, 1500, events=[ev(1 + 2 * i, c, "Start", w=i) for i, c in enumerate(cs)])
+    return Scenario(sim, workload=nclients * 40,
+                    extra=lambda: {"logs": [c.log for c in cs], "levels": lsm.level_summary, "lsm": lsm.stats})
